@@ -77,6 +77,12 @@ func abstractStr(s string) string {
 
 var regNames []string
 
+// per scenario: for each connection id, the "done" channels of the other connections
+var (
+	othersMu sync.Mutex
+	others   = map[string][]chan struct{}{}
+)
+
 func descOf(name string) string {
 	return "interface " + name + "\nmethod M() -> ()\n# é\U0001d11e <>&\n"
 }
@@ -148,17 +154,31 @@ func (d *scripted) VarlinkDispatch(ctx context.Context, call varlink.Call, metho
 		Tok int    `json:"tok"`
 		Pad string `json:"pad,omitempty"`
 	}
+	var lastRefused error
 	for k, st := range p.Script {
 		d.log.Ev("RS", tr.M{"c": c, "k": k + 1})
 		var err error
 		switch st.K {
 		case "cont":
-			call.Continues = true
+			call.Continues = true // stays set, as in a handler that streams
 			err = call.Reply(ctx, &rep{st.Tok, p.Pad})
-			call.Continues = false
 		case "final":
 			call.Continues = false
 			err = call.Reply(ctx, &rep{st.Tok, p.Pad})
+		case "same":
+			err = call.Reply(ctx, &rep{st.Tok, p.Pad}) // with Continues as the handler left it
+		case "wait":
+			// wait until every other connection of this scenario is done (bounded: a service that
+			// serialises connections would otherwise hang this handler forever)
+			othersMu.Lock()
+			chs := others[c]
+			othersMu.Unlock()
+			for _, ch := range chs {
+				select {
+				case <-ch:
+				case <-time.After(12 * time.Second):
+				}
+			}
 		case "err":
 			err = call.ReplyError(ctx, joinChars(st.Name), &rep{st.Tok, p.Pad})
 		case "std":
@@ -179,6 +199,7 @@ func (d *scripted) VarlinkDispatch(ctx context.Context, call varlink.Call, metho
 				res = "ioerr"
 			} else {
 				res = "refused"
+				lastRefused = err
 			}
 		}
 		d.log.Ev("RE", tr.M{"c": c, "k": k + 1, "res": res})
@@ -188,11 +209,14 @@ func (d *scripted) VarlinkDispatch(ctx context.Context, call varlink.Call, metho
 		}
 	}
 	ret := p.Ret
-	if ret != "err" {
+	if ret != "err" && ret != "referr" {
 		ret = "nil"
 	}
 	d.log.Ev("HR", tr.M{"c": c, "ret": ret})
-	if ret == "err" {
+	if ret == "referr" && lastRefused != nil {
+		return lastRefused // the very error value the library handed to the handler
+	}
+	if ret != "nil" {
 		return errors.New("scripted handler error")
 	}
 	return nil
@@ -569,13 +593,30 @@ func cmdConn(args []string) int {
 				pad = ""
 			}
 			var wg sync.WaitGroup
+			doneCh := map[string]chan struct{}{}
+			for _, c := range ids {
+				doneCh[c] = make(chan struct{})
+			}
+			othersMu.Lock()
+			for _, c := range ids {
+				others[c] = nil
+				for _, d := range ids {
+					if d != c {
+						others[c] = append(others[c], doneCh[d])
+					}
+				}
+			}
+			othersMu.Unlock()
 			for _, c := range ids {
 				wg.Add(1)
 				sd := r.rng.Int63()
 				if cut1 > 0 {
 					sd = 1 // the same concrete frame for every cut
 				}
-				go r.runConn(c, scens[c], pad, sd, cut1, &wg)
+				go func(c string, sd int64) {
+					r.runConn(c, scens[c], pad, sd, cut1, &wg)
+					close(doneCh[c])
+				}(c, sd)
 			}
 			wg.Wait()
 			dialed += int64(len(ids))
